@@ -69,6 +69,16 @@ def is_edit(h):
     return h[0] == 'T'
 
 
+def is_trigger(h):
+    """history steps: [m, ev] / [m, ev, j] trigger (j: index of the on_exit callback that raises);
+    ['T', state, mode, tags] edit of the public tags list; ['P', m, ev, how] may_ poll;
+    ['G', state] machine.get_triggers(state); ['R', state, which] machine.on_<which>_<state>(callback)"""
+    return isinstance(h[0], int)
+
+
+AUX = ('conv', 'reg', 'finalCb')     # callbacks outside the mixins' contracts: only the decorated-vs-plain twin looks
+
+
 def normalise(d):
     """history entries must name events the machine knows (an unknown name is an AttributeError of the
     model, nobody's contract here); `tags` edits need a machine with Tags/Error and a known state"""
@@ -79,6 +89,10 @@ def normalise(d):
     def ok(h):
         if is_edit(h):
             return tagged and h[1] in names
+        if h[0] == 'P':
+            return h[2] in known and h[1] < d['nmodels']
+        if h[0] in ('G', 'R'):
+            return h[1] in names
         return h[1] in known
     d = dict(d)
     d.setdefault('local', [])
@@ -188,11 +202,21 @@ def gen(rng, cls=None, probe=None, featureless=False):
                 states.append(c)
             if rng.random() < 0.8:
                 s['initial'] = rng.choice(kids)
-            if rng.random() < 0.45:
+            if rng.random() < 0.45 and not featureless:
                 # transitions declared inside the parent's state dict (names relative to the parent)
                 for n in range(rng.randint(1, 2)):
                     src = rng.choice(kids)
                     d['local'].append([t, 'l%d' % n, src, src if rng.random() < 0.7 else rng.choice(kids)])
+    if featureless:
+        # the conventions of the undecorated class that decoration has to keep: final states and on_final
+        # callbacks, model methods on_enter_/on_exit_/on_final_<state>, machine.on_<callback>_<state>(f)
+        for s in states:
+            if rng.random() < 0.3:
+                s['final'] = True
+            if rng.random() < 0.5:
+                s['n_final'] = rng.randint(1, 2)
+            if rng.random() < 0.5:
+                s['conv'] = sorted(rng.sample(['enter', 'exit', 'final'], rng.randint(1, 3)))
     if not featureless and ('Tags' in d['feats'] or 'Error' in d['feats']) and rng.random() < 0.12 and len(states) > 1:
         # a caller who reuses one tags list for several states
         sharers = rng.sample(states, rng.randint(2, min(3, len(states))))
@@ -292,7 +316,11 @@ def gen(rng, cls=None, probe=None, featureless=False):
             return ['T', name, mode, sorted(rng.sample(TAGS, rng.randint(0, 2)))]
         return ['T', name, mode, [rng.choice(TAGS[:1] * 2 + TAGS)]]
 
+    p_poll = 0.3 if ('Error' in d['feats'] and not featureless) else 0.08
+
     def one(m, ev):
+        if featureless and rng.random() < 0.12:
+            hist.append(['R', rng.choice(names), rng.choice(['enter', 'exit', 'final', 'final'])])
         if rng.random() < 0.12:
             # an on_exit callback of the state being left raises (index of the raising callback)
             hist.append([m, ev, rng.randint(0, 1)])
@@ -301,6 +329,14 @@ def gen(rng, cls=None, probe=None, featureless=False):
             advance(m, ev)
         if tagged and rng.random() < 0.15:
             hist.append(edit())
+        if rng.random() < p_poll:
+            # a pure query in between: may_<event>() / may_trigger(event) of a model, or get_triggers(state)
+            r = rng.random()
+            if r < 0.8:
+                hist.append(['P', m if rng.random() < 0.7 else rng.randrange(d['nmodels']), rng.choice(evs),
+                             rng.choice(['may_', 'may_trigger'])])
+            else:
+                hist.append(['G', rng.choice(names)])
     hist = []
     n = rng.randint(3, 14)
     while len(hist) < n:
@@ -311,7 +347,7 @@ def gen(rng, cls=None, probe=None, featureless=False):
             if rng.random() < 0.25 and d['nmodels'] > 1:
                 m2 = rng.randrange(d['nmodels'])
                 one(m2, pick(m2))
-    d['history'] = hist[:20]
+    d['history'] = hist[:24]
     return normalise(d)
 
 
@@ -426,7 +462,15 @@ def realise(d):
     else:
         class Custom(base):
             pass
-    models.extend(ModelObj(i, log, idx) for i in range(d['nmodels']))
+    # model methods picked up by naming convention (on_enter_<state>, on_exit_<state>, on_final_<state>)
+    methods = {}
+    for s in d['states']:
+        for which in s.get('conv', []):
+            def conv(self, *args, _s=idx[s['name']], _w=which, **kwargs):
+                log.items.append(('conv', _s, self._idx, _w, None))
+            methods['on_%s_%s' % (which, s['name'])] = conv
+    model_cls = type('ConvModel', (ModelObj,), methods) if methods else ModelObj
+    models.extend(model_cls(i, log, idx) for i in range(d['nmodels']))
 
     lists = {}
 
@@ -435,6 +479,10 @@ def realise(d):
         o = {'name': s['name'].split(SEP)[-1],
              'on_enter': [make_recorder(log, models, 'enterCb', i, j) for j in range(s['n_enter'])],
              'on_exit': [make_recorder(log, models, 'exitCb', i, j, s['n_exit'] - 1) for j in range(s['n_exit'])]}
+        if s.get('final'):
+            o['final'] = True
+        if s.get('n_final') and is_nested(d['cls']):
+            o['on_final'] = [make_recorder(log, models, 'finalCb', i, j) for j in range(s['n_final'])]
         if s.get('tags') is not None:
             # states with the same 'tags_ref' are handed one and the same list object
             o['tags'] = lists.setdefault(s['tags_ref'], list(s['tags'])) if s.get('tags_ref') else list(s['tags'])
@@ -470,6 +518,8 @@ def realise(d):
         def on_exc(*args, **kwargs):
             log.handled.append(1)
         kwargs['on_exception'] = on_exc
+    if any(s.get('n_final') for s in d['states']):
+        kwargs['on_final'] = make_recorder(log, models, 'finalCb', len(d['states']), 0)
     machine = Custom(model=models, states=defs, transitions=[list(t) for t in d['transitions']],
                      initial=d['initial'], auto_transitions=d['auto'],
                      ignore_invalid_triggers=d['ignore'], send_event=d['send_event'], **kwargs)
@@ -536,6 +586,26 @@ def execute(d):
                         st.tags.remove(t)
             r.steps.append({'items': [], 'result': 'edit', 'post': post(), 'tags': read_tags(d, machine)})
             continue
+        if not is_trigger(h):
+            try:
+                if h[0] == 'P':
+                    m = models[h[1]]
+                    res = getattr(m, 'may_' + h[2])(h[1]) if h[3] == 'may_' else m.may_trigger(h[2], h[1])
+                    result = 'may:true' if res is True else 'may:false' if res is False else 'may:%r' % (res,)
+                elif h[0] == 'G':
+                    result = 'triggers:' + ','.join(sorted(machine.get_triggers(h[1])))
+                else:
+                    getattr(machine, 'on_%s_%s' % (h[2], h[1]))(make_recorder(log, models, 'reg', idx[h[1]], h[2]))
+                    result = 'registered'
+            except AttributeError:
+                result = 'AttributeError'
+            except Exception as e:
+                result = 'exc:' + type(e).__name__
+            r.steps.append({'items': [it for it in log.items if it[0] not in AUX], 'all': list(log.items),
+                            'result': result, 'post': post()})
+            if result.startswith('exc:'):
+                break
+            continue
         mi, ev = h[0], h[1]
         models[mi]._veto = h[2] if len(h) > 2 else None
         res = 'raised'
@@ -553,7 +623,8 @@ def execute(d):
             vetoed = any(it[0] == 'exitRaise' for it in log.items)
             result = ('veto' if vetoed else 'ME') if (len(log.handled) == 1 and not res) else \
                 'exc:handler(%d,%s)' % (len(log.handled), result)
-        r.steps.append({'items': list(log.items), 'result': result, 'handled': handled, 'post': post()})
+        r.steps.append({'items': [it for it in log.items if it[0] not in AUX], 'all': list(log.items),
+                        'result': result, 'handled': handled, 'post': post()})
         if result.startswith('exc:'):
             break
     r.tags_after = read_tags(d, machine)
@@ -627,7 +698,7 @@ def trigger_steps(d, run):
         if is_edit(h):
             for name in tr.apply(h[1], h[2], h[3]):
                 pending[idx[name]] = [TAGS.index(t) for t in tr.tags(name)]
-        else:
+        elif is_trigger(h):
             out.append((n, st, sorted(pending.items())))
             pending = {}
     return out
@@ -676,8 +747,9 @@ def event_ids(d):
         if ev not in evs:
             evs.append(ev)
     for h in d['history']:
-        if not is_edit(h) and h[1] not in evs:
-            evs.append(h[1])
+        ev = h[1] if is_trigger(h) else h[2] if h[0] == 'P' else None
+        if ev is not None and ev not in evs:
+            evs.append(ev)
     return {e: i for i, e in enumerate(evs)}
 
 
@@ -695,7 +767,9 @@ def enc_flat(d):
             for name in tt.apply(h[1], h[2], h[3]):
                 tags = [TAGS.index(t) for t in tt.tags(name)]
                 steps.append([1, idx[name], len(tags)] + tags)
-        else:
+        elif h[0] == 'P':
+            steps.append([2, h[1], eid[h[2]]])
+        elif is_trigger(h):
             steps.append([0, h[0], eid[h[1]], 1 if len(h) > 2 else 0])
     o += [1 if d['ignore'] else 0, d['nmodels'], idx[d['initial']], len(steps)]
     for st in steps:
@@ -752,7 +826,7 @@ def dec_flat_answer(ans, d):
     pos = 0
     H = len(HOOKS)
     out = []
-    for _ in [h for h in d['history'] if not is_edit(h)]:
+    for _ in [h for h in d['history'] if is_trigger(h) or h[0] == 'P']:
         items, pos = _dec_log(nums, pos)
         code = nums[pos]
         pos += 1
@@ -868,7 +942,8 @@ def compare_ops(d, run, model):
 
 def compare_flat(d, run, model):
     impl = []
-    ts = trigger_steps(d, run)
+    # the flat model answers for triggers and for may_ polls
+    ts = [(n, st, None) for n, (h, st) in enumerate(zip(d['history'], run.steps)) if is_trigger(h) or h[0] == 'P']
     for n, st, _e in ts:
         obs, bad = collapse(d, st['items'])
         if bad:
@@ -876,7 +951,7 @@ def compare_flat(d, run, model):
         impl.append({'items': obs, 'post': st['post']})
     ci = canon_steps(impl, True)
     cm = canon_steps(model, True)
-    codes = {0: 'true', 1: 'false', 2: 'ME', 3: 'ME', 4: 'veto'}
+    codes = {0: 'true', 1: 'false', 2: 'ME', 3: 'ME', 4: 'veto', 10: 'may:false', 11: 'may:true'}
     for k, (a, b) in enumerate(zip(ci, cm)):
         n, st, _e = ts[k]
         if a != b or st['result'] != codes[model[k]['code']]:
@@ -976,6 +1051,12 @@ def oracle_steps(d, run):
         where = {'step': n, 'trigger': d['history'][n]}
         if is_edit(d['history'][n]):
             tt.apply(*d['history'][n][1:4])
+            continue
+        if not is_trigger(d['history'][n]):
+            if res.startswith('exc:') or step['items'] or [s for s, _h in step['post']] != pre:
+                fails.append(('query-not-pure', dict(where, result=res, items=[i[:4] for i in step['items']],
+                                                     problem='a may_ poll / get_triggers read / callback registration '
+                                                             'ran callbacks, moved a model or failed')))
             continue
         armed = len(d['history'][n]) > 2
         if res not in ('true', 'false', 'ME') and not (res == 'veto' and armed):
@@ -1100,7 +1181,7 @@ def flat_engine_ops(d, run):
     names = state_names(d)
     out = []
     for n, h in enumerate(d['history'][:len(run.steps)]):
-        if is_edit(h):
+        if not is_trigger(h):
             out.append([])
             continue
         m, ev = h[0], h[1]
@@ -1134,8 +1215,26 @@ def inject_ops(d, run):
 
 def plain_view(run):
     """what an undecorated machine shows: results, states, callback order (no hook attributes)"""
-    return [([it[:4] for it in st['items'] if it[0] not in ('op_enter', 'op_exit')], st['result'],
+    return [([it[:4] for it in st.get('all', st['items']) if it[0] not in ('op_enter', 'op_exit')], st['result'],
              [s for s, _h in st['post']]) for st in run.steps]
+
+
+def state_cls_methods(d):
+    """(dynamic_methods of the decorated machine's state class, of the undecorated class's), as sorted ids
+    0 on_enter, 1 on_exit, 2 on_final, 3 on_timeout, 9 anything else"""
+    import transitions
+    from transitions.extensions import LockedMachine, HierarchicalMachine, LockedHierarchicalMachine
+    from transitions.extensions import states as st_mod
+    base = {'Machine': transitions.Machine, 'LockedMachine': LockedMachine,
+            'HierarchicalMachine': HierarchicalMachine,
+            'LockedHierarchicalMachine': LockedHierarchicalMachine}[d['cls']]
+    ids = {'on_enter': 0, 'on_exit': 1, 'on_final': 2, 'on_timeout': 3}
+
+    @st_mod.add_state_features(*[getattr(st_mod, f) for f in d['feats']])
+    class Custom(base):
+        pass
+    return (sorted(set(ids.get(x, 9) for x in Custom.state_cls.dynamic_methods)),
+            sorted(set(ids.get(x, 9) for x in base.state_cls.dynamic_methods)))
 
 
 def shrink_steps(case):
@@ -1151,7 +1250,7 @@ def shrink_steps(case):
         if c['history']:
             yield mk(c)
     for i, h in enumerate(d['history']):
-        if not is_edit(h) and len(h) > 2:
+        if is_trigger(h) and len(h) > 2:
             c = copy.deepcopy(d)
             c['history'][i] = h[:2]
             yield mk(c)
@@ -1160,7 +1259,8 @@ def shrink_steps(case):
             c = copy.deepcopy(d)
             del c[key][i]
             yield mk(c)
-    if d['nmodels'] > 1 and all(is_edit(h) or h[0] < d['nmodels'] - 1 for h in d['history']):
+    if d['nmodels'] > 1 and all((h[0] if is_trigger(h) else h[1] if h[0] == 'P' else 0) < d['nmodels'] - 1
+                                for h in d['history']):
         c = copy.deepcopy(d)
         c['nmodels'] -= 1
         yield mk(c)
@@ -1181,6 +1281,11 @@ def shrink_steps(case):
             if s[key] > 1:
                 c = copy.deepcopy(d)
                 c['states'][i][key] = 1
+                yield mk(c)
+        for key in ('final', 'n_final', 'conv'):
+            if key in s:
+                c = copy.deepcopy(d)
+                del c['states'][i][key]
                 yield mk(c)
     for flag in ('auto', 'send_event', 'ignore', 'on_exception'):
         if d.get(flag):
